@@ -304,7 +304,22 @@ def C09():
         replayers={"attributes.py::BroadcastValue": R.replay_broadcast}, design_ref="4/C09, A5-A6")
 
 
-PROPERTIES = {"C01": C01, "C02": C02, "C05": C05, "C07": C07, "C09": C09, "C14": C14, "C15": C15, "C18": C18, "C04": C04, "C06": C06, "C08": C08, "C10": C10, "C12": C12, "C16": C16, "C19": C19}
+def C13():
+    from contracts.grouping import UNITS, LEMMAS
+    from contracts import replayers as R
+    return Property(
+        "C13", units=[ContractUnit(u) for u in UNITS] + LEMMAS, level="proof",
+        technique="Kleene-semantics model of the polars expression fragment; whole-frame postconditions on the real _suppress_single_column / "
+                  "_suppress_hierarchical_columns (2 and 3 levels) / restore_page_context (loop invariant over page starts) / validate_data_sorting "
+                  "(seen-set invariant, exceptional postcondition) + contiguity lemma",
+        trusted_base=[SOLVERS, ENGINE, "polars expression semantics as modelled in pyvc/libmodels/polars_expr.py (Kleene nulls, shift, when/then/otherwise, "
+                      "with_columns evaluating pl.col on its receiver); null is a single value"],
+        assumptions=["page start indices handed to restore_page_context (_apply_data_post_processing) and the deeper levels of validate_data_sorting "
+                     "(composite string key; injectivity precondition) are not yet under contract in this check"],
+        replayers={"services/grouping_service.py::": R.replay_grouping}, design_ref="4/C13, A18")
+
+
+PROPERTIES = {"C13": C13, "C01": C01, "C02": C02, "C05": C05, "C07": C07, "C09": C09, "C14": C14, "C15": C15, "C18": C18, "C04": C04, "C06": C06, "C08": C08, "C10": C10, "C12": C12, "C16": C16, "C19": C19}
 
 # ---- texts for MANIFEST.json (tools/gen_manifest.py) ------------------------------------------------------
 MANIFEST_TEXT = {
@@ -377,6 +392,13 @@ MANIFEST_TEXT = {
                 "index and rgb/rtf agreement.",
         "note": "filter/sorted/index are assumed stdlib contracts (functions of the input list with their defining axioms). Which colour list "
                 "is current when an emitter asks (document context on the three encode paths) is named as not yet under contract.",
+    },
+    "C13": {
+        "text": "For frames of any height: a group cell is blanked exactly when its hierarchical key (null as a value) equals the previous row's, "
+                "shown cells keep their value, other columns are untouched (1, 2 and 3 levels); restore_page_context puts the original values back "
+                "on exactly the page-start rows and leaves everything else as suppressed; one-column sorting validation returns iff every run start "
+                "is a value not seen before and raises ValueError otherwise; fresh run starts imply contiguity (lemma).",
+        "note": "Relative to the modelled polars expression semantics (bounded audit planned); the page-start computation is named as not yet under contract.",
     },
     "C14": {
         "text": "Purity as a frame property: all store and mutator sites reachable from rtf_encode (enumerated from the real AST on every run) "
